@@ -488,11 +488,11 @@ type langExample struct {
 
 type LangEnv struct {
 	examples []langExample
-	defs    map[string]*Re
-	src     map[string]string // name -> source text ("(code) ..." for code-derived)
-	pending map[string]string
-	used    map[string]bool
-	errs    []string
+	defs     map[string]*Re
+	src      map[string]string // name -> source text ("(code) ..." for code-derived)
+	pending  map[string]string
+	used     map[string]bool
+	errs     []string
 }
 
 func NewLangEnv() *LangEnv {
